@@ -15,6 +15,7 @@ STAGES = [
     Stage("parallel-copy-asan", "p15b_parallel_copy", "asan", {"quick": 100, "thorough": 1500}, offset=20000000),
 ]
 THRESHOLDS = {
+    "copy_carries_unused_entries": 0.5,   # corner element of a tridiagonal solver copied while its cyclic flag is off, flag restored afterwards
     # booleans (0 = as required, 1 = not): exact, bitwise comparisons of everything readable through the public interface
     "elements_match_model": 0.5,      # after every step every live object reads exactly like its plain model
     "target_equals_source": 0.5,      # right after a copy/move the target reads like the source did just before
